@@ -64,9 +64,13 @@ RULE = ('contract: random rise arrays (1-6 assemblies, 1-6 terms, zeros '
         'stub: 1-3 types x 1-8 assemblies with generated peak profiles, all '
         'five built-in tables and generated CSV tables (3-5 value columns, '
         'with/without dT expressions, BOM, lower-case type), all six '
-        'locations; e2e: random pin bundles (2-5 rings, FuelModel or PinModel,'
-        ' with/without gap, axial regions, 1-3 types on 7 positions) with '
-        '1-6 hot-spot sections per type; a case is non-trivial when a '
+        'locations; e2e: random pin bundles (2-5 rings, thorough 2-7; FuelModel '
+        'or PinModel, with/without gap, constant and T-dependent materials, '
+        'axial regions, 1-3 types on 7 positions, thorough up to 19) with '
+        '1-6 hot-spot sections per type (sigma from the input file, then all '
+        'input sigma 1-4 x output sigma 0-4 and a unity table through the '
+        'reactor options); edge: one e2e case per corner F191-F196; '
+        'a case is non-trivial when a '
         'hot-spot temperature exceeds the nominal one by > 0.5 K with a '
         'non-zero statistical part; distinct by (kind, locations, tables, '
         'assemblies)')
